@@ -99,6 +99,18 @@ func (c *Ctx) clearExactBySim(rule string, fd *ast.FuncDecl, famKeys []string, f
 		state := map[string]int{} // 1 set, -1 unset
 		weak := map[string]bool{}
 		cbLoop := 0
+		// noCbs: the path is taken only when the list of callbacks is empty (len(cbs) == 0): nothing can be
+		// reported there, so only the clears matter
+		noCbs := false
+		for _, cd := range p.conds {
+			if b, ok := cd.v.(svBin); ok && cd.neg && !cd.loop && (b.op == token.NEQ || b.op == token.GTR) {
+				if lc, isCall := b.x.(svCall); isCall && lc.callee == nil && lc.call != nil && c.isBuiltin(lc.call, "len") && len(lc.args) == 1 && isBareParam(lc.args[0], cbs) {
+					if k, isK := b.y.(svConst); isK && k.v.String() == "0" {
+						noCbs = true
+					}
+				}
+			}
+		}
 		for _, cd := range p.conds {
 			if f, set, ok := setLit(cd); ok {
 				if set {
@@ -121,6 +133,21 @@ func (c *Ctx) clearExactBySim(rule string, fd *ast.FuncDecl, famKeys []string, f
 			for _, f := range mentions(cd.v) {
 				weak[f] = true
 			}
+		}
+		// a path on which the list of callbacks is both known empty and walked for an element (or known non-empty
+		// and walked for none) does not exist
+		hasCbs := false
+		for _, cd := range p.conds {
+			if b, ok := cd.v.(svBin); ok && !cd.neg && !cd.loop && (b.op == token.NEQ || b.op == token.GTR) {
+				if lc, isCall := b.x.(svCall); isCall && lc.callee == nil && lc.call != nil && c.isBuiltin(lc.call, "len") && len(lc.args) == 1 && isBareParam(lc.args[0], cbs) {
+					if k, isK := b.y.(svConst); isK && k.v.String() == "0" {
+						hasCbs = true
+					}
+				}
+			}
+		}
+		if noCbs && cbLoop == 1 || hasCbs && cbLoop == -1 {
+			continue
 		}
 		var recs []rec
 		writes := map[string][]seffect{}
@@ -207,6 +234,15 @@ func (c *Ctx) clearExactBySim(rule string, fd *ast.FuncDecl, famKeys []string, f
 				if fieldWhy[f] == "" {
 					fieldWhy[f] = why
 				}
+			}
+			if noCbs {
+				switch {
+				case len(ws) == 0 && state[f] != -1:
+					bad("on the path taken when no callback is given the validation is not cleared")
+				case len(ws) > 0 && !isZeroSV(ws[len(ws)-1].val):
+					bad("the store does not write the zero value")
+				}
+				continue
 			}
 			switch state[f] {
 			case 1:
